@@ -38,6 +38,8 @@ type frame struct {
 	loopOrd          map[ast.Node]int
 	litOrd           map[*ast.FuncLit]int
 	viaApplyContract bool
+	hookContract     *FuncContract     // inlined literal without a contract of its own: the enclosing contract, for ordinal-free `ghost at call Name` hooks
+	outerExtras      map[string]*Value // names of enclosing range loops visible to nested loop invariants
 	callOrd          map[*ast.CallExpr]int
 	deferBase        int
 	contract         *FuncContract // contract whose invariants apply to loops of this frame (nil for inlined)
@@ -65,9 +67,9 @@ type fctx struct {
 	ghostCalls        map[string]int
 	ovfCount          int
 	ifaceFactsPending bool
-	capturedEntry     map[string]*Value // closure units: entry values of captured locals (visible in old())
+	capturedEntry     map[string]*Value     // closure units: entry values of captured locals (visible in old())
 	rebind            map[string]*types.Var // contract name of a renamed local -> current variable (lock.go)
-	lastPos           string            // source position of the statement being executed (for messages only)
+	lastPos           string                // source position of the statement being executed (for messages only)
 }
 
 type modLoc struct {
